@@ -1375,3 +1375,24 @@ package kcache
 
 /*@ iface kcache.CacheReader.Get
 @*/
+
+/*@ func kcache.BuildHandler
+  props C16
+  fresh result
+  ensures (not (= result vnil))
+@*/
+/*@ iface kcache.HandlerBuilder.OnInitialize
+  ensures (= result $recv)
+@*/
+/*@ iface kcache.HandlerBuilder.OnCreate
+  ensures (= result $recv)
+@*/
+/*@ iface kcache.HandlerBuilder.OnUpdate
+  ensures (= result $recv)
+@*/
+/*@ iface kcache.HandlerBuilder.OnDelete
+  ensures (= result $recv)
+@*/
+/*@ iface kcache.HandlerBuilder.Create
+  ensures (not (= result vnil))
+@*/
